@@ -570,3 +570,125 @@ pub fn indicator_configs(only: Option<&str>, with_kinds: bool) -> Vec<Box<dyn In
 	}
 	v
 }
+
+/// Two events on a steady stream, as ONE macro transition per (kind, first amplitude, gap, second
+/// amplitude): the high pushed up by a and the low pushed down by b (amplitudes from a short list), either
+/// for one candle each ("spikes") or for good ("steps": a new level), in both orders, at every gap
+/// 0..=`max_gap`, followed by `tail` steady candles. The oracle of the inner system runs after every
+/// candle. (Outputs of two overshooting averages that cancel exactly, a quotient whose denominator passes
+/// through zero: relations between two amplitudes and two ages that neither a short exhaustive depth
+/// nor one deviation reaches.)
+pub struct ImpulsePairs {
+	pub inner: IndSys,
+	pub k: usize,
+	pub max_gap: usize,
+	pub tail: usize,
+}
+impl ImpulsePairs {
+	pub fn new(name: &str, cfgs: Vec<Box<dyn IndCfg>>, base: Candle, amps: &[f64], oracle: Oracle, max_gap: usize, tail: usize) -> Self {
+		type V = yata::core::ValueType;
+		let mut al = vec![base];
+		for a in amps {
+			al.push(Candle { high: base.high + *a as V, ..base });
+		}
+		for b in amps {
+			al.push(Candle { low: base.low - *b as V, ..base });
+		}
+		for a in amps {
+			for b in amps {
+				al.push(Candle { high: base.high + *a as V, low: base.low - *b as V, ..base });
+			}
+		}
+		Self { inner: IndSys::new(name, cfgs, vec![base], al, oracle, false), k: amps.len(), max_gap, tail }
+	}
+}
+impl System for ImpulsePairs {
+	type State = (IState, bool);
+	/// (kind: 0 spikes high-then-low, 1 spikes low-then-high, 2 steps high-then-low, 3 steps low-then-high; a; gap; b)
+	type Act = (u8, usize, usize, usize);
+	fn name(&self) -> String {
+		self.inner.name.clone()
+	}
+	fn inits(&self) -> Vec<((IState, bool), String)> {
+		self.inner.inits().into_iter().map(|(s, l)| ((s, false), l)).collect()
+	}
+	fn actions(&self, s: &(IState, bool), _: u32) -> Vec<((u8, usize, usize, usize), u8)> {
+		if s.1 {
+			return vec![];
+		}
+		let mut v = vec![];
+		for kind in 0..4u8 {
+			for a in 0..self.k {
+				for b in 0..self.k {
+					for g in 0..=self.max_gap {
+						v.push(((kind, a, g, b), 0));
+					}
+				}
+			}
+		}
+		v
+	}
+	fn show_act(&self, a: &(u8, usize, usize, usize)) -> String {
+		let what = ["spikes: high first, then low", "spikes: low first, then high", "steps: high first, then low", "steps: low first, then high"][a.0 as usize];
+		format!("{what}; amplitude indices ({}, {}), gap {}: {:?}", a.1, a.3, a.2, self.sequence(a))
+	}
+	fn step(&self, s: &(IState, bool), a: &(u8, usize, usize, usize)) -> Step<(IState, bool)> {
+		let seq = self.sequence(a);
+		let mut st = s.0.clone();
+		let mut exempt = None;
+		for (i, x) in seq.iter().enumerate() {
+			match self.inner.step(&st, x) {
+				Step::Next(n) => st = n,
+				Step::Exempt(n, w) => {
+					st = n;
+					exempt = Some(w);
+				}
+				Step::ViolationContinue(n, f) => {
+					let _ = n;
+					return Step::Violation(Failure::new(f.sig, format!("{} [candle {i} of the macro: {}]", f.detail, In::C(self.cand(*x)).show())));
+				}
+				Step::Violation(f) => return Step::Violation(Failure::new(f.sig, format!("{} [candle {i} of the macro: {}]", f.detail, In::C(self.cand(*x)).show()))),
+				Step::Prune => return Step::Prune,
+			}
+		}
+		match exempt {
+			Some(w) => Step::Exempt((st, true), w),
+			None => Step::Next((st, true)),
+		}
+	}
+}
+impl ImpulsePairs {
+	fn cand(&self, x: usize) -> Candle {
+		if x < self.inner.alphabet.len() { self.inner.alphabet[x] } else { self.inner.alphabet[0] }
+	}
+	/// action indices of the inner system (its alphabet: base, highs, lows, both)
+	fn sequence(&self, a: &(u8, usize, usize, usize)) -> Vec<usize> {
+		let k = self.k;
+		let n = self.inner.alphabet.len();
+		let (hi, lo, both) = (1 + a.1, 1 + k + a.3, 1 + 2 * k + a.1 * k + a.3);
+		let mut seq = vec![n + 2, 0, 0];
+		match a.0 {
+			0 => {
+				seq.push(hi);
+				seq.extend(std::iter::repeat(0).take(a.2));
+				seq.push(lo);
+				seq.extend(std::iter::repeat(0).take(self.tail));
+			}
+			1 => {
+				seq.push(lo);
+				seq.extend(std::iter::repeat(0).take(a.2));
+				seq.push(hi);
+				seq.extend(std::iter::repeat(0).take(self.tail));
+			}
+			2 => {
+				seq.extend(std::iter::repeat(hi).take(a.2 + 1));
+				seq.extend(std::iter::repeat(both).take(self.tail));
+			}
+			_ => {
+				seq.extend(std::iter::repeat(lo).take(a.2 + 1));
+				seq.extend(std::iter::repeat(both).take(self.tail));
+			}
+		}
+		seq
+	}
+}
